@@ -58,6 +58,7 @@ func Run(c *core.Ctx) {
 	r.r5enc("encodeArray")
 	r.r6()
 	r.r7()
+	r.extra()
 	// instance counts confirmed on the pinned tree: fewer is UNDECIDED, never a vacuous pass
 	for rule, n := range map[string]int{"R1.account": 5, "R1.init": 2, "R1.report": 1, "R2.depth": 4, "R2.tags": 15, "R3.length": 6, "R4.term": 13, "R5.nil": 8, "R6.grammar": 10, "R7.bias": 5} {
 		c.Expect(rule, n)
